@@ -14,7 +14,7 @@ are checked by exhaustive short assignment histories.
 from __future__ import annotations
 
 import itertools
-from datetime import datetime, timedelta, timezone
+from datetime import datetime, timedelta, timezone, tzinfo
 
 from mc import core
 
@@ -1336,6 +1336,58 @@ D4 = datetime(2001, 9, 9, 1, 46, 40)                                            
 D0 = datetime(1970, 1, 1, tzinfo=UTC)                                                   # the epoch: timestamp 0 is a date
 
 
+class _ZeroTZ(tzinfo):
+    """a third-party style UTC class: zero offset, but not datetime.timezone.utc"""
+
+    def utcoffset(self, dt):
+        return timedelta(0)
+
+    def dst(self, dt):
+        return timedelta(0)
+
+    def tzname(self, dt):
+        return "UTC"
+
+
+class _LondonLikeTZ(tzinfo):
+    """zero offset in winter, +1 h from April to September (hand-written, independent of the tz database)"""
+
+    def _summer(self, dt):
+        return dt is not None and 4 <= dt.month <= 9
+
+    def utcoffset(self, dt):
+        return timedelta(hours=1) if self._summer(dt) else timedelta(0)
+
+    def dst(self, dt):
+        return timedelta(hours=1) if self._summer(dt) else timedelta(0)
+
+    def tzname(self, dt):
+        return "BST" if self._summer(dt) else "GMT"
+
+
+# aware datetimes whose offset is zero although tzinfo is not datetime.timezone.utc - all well-typed
+ZERO_OFFSET_DATES = [
+    datetime(2021, 1, 15, 12, 30, 45, 500000, tzinfo=_ZeroTZ()),
+    datetime(2021, 1, 15, 12, 30, 45, tzinfo=_LondonLikeTZ()),          # winter: offset 0
+    datetime(2021, 7, 15, 12, 30, 45, tzinfo=_LondonLikeTZ()),          # summer: +01:00
+    datetime(2021, 1, 15, 12, 30, 45, tzinfo=timezone(timedelta(0), "GMT")),
+    datetime(2021, 1, 15, 12, 30, 45, tzinfo=timezone(timedelta(0))),
+]
+try:
+    import zoneinfo as _zi
+
+    if {"UTC", "Europe/London", "Africa/Abidjan"} <= _zi.available_timezones():
+        ZERO_OFFSET_DATES += [
+            datetime(2021, 1, 15, 12, 30, 45, tzinfo=_zi.ZoneInfo("UTC")),
+            datetime(2021, 1, 15, 12, 30, 45, tzinfo=_zi.ZoneInfo("Europe/London")),      # winter
+            datetime(2021, 7, 15, 12, 30, 45, tzinfo=_zi.ZoneInfo("Europe/London")),      # summer
+            datetime(2021, 7, 15, 12, 30, 45, tzinfo=_zi.ZoneInfo("Africa/Abidjan")),
+        ]
+except Exception:  # noqa: BLE001 - no tz database: the hand-written classes above cover the case
+    pass
+ALL_DATES = [D1, D2, D3, D4, D0] + ZERO_OFFSET_DATES
+
+
 def as_utc_second(dt):
     if dt.tzinfo is None:
         dt = dt.replace(tzinfo=UTC)
@@ -1375,7 +1427,7 @@ def _str_prop(prop, header):
 
 def _date_prop(prop, header):
     return dict(prop=prop, header=header, default=RB("eq", None), deletable=True,
-                assigns=[(f"d{i}", d, rfc1123(as_utc_second(d)), RB("dt", as_utc_second(d))) for i, d in enumerate((D1, D2, D3, D4, D0))],
+                assigns=[(f"d{i}", d, rfc1123(as_utc_second(d)), RB("dt", as_utc_second(d))) for i, d in enumerate(ALL_DATES)],
                 direct=[("Sun, 06 Nov 1994 08:49:37 GMT", RB("dt", datetime(1994, 11, 6, 8, 49, 37, tzinfo=UTC))),
                         ("garbage", RB("eq", None))])
 
@@ -1415,6 +1467,7 @@ SCALARS = [
          assigns=[("dt", D2, rfc1123(as_utc_second(D2)), RB("dt", as_utc_second(D2))),
                   ("dt-off", D3, rfc1123(as_utc_second(D3)), RB("dt", as_utc_second(D3))),
                   ("epoch", D0, rfc1123(D0), RB("dt", D0)), ("int0", 0, "0", RB("soon", 0)),
+                  *[(f"zero{i}", d, rfc1123(as_utc_second(d)), RB("dt", as_utc_second(d))) for i, d in enumerate(ZERO_OFFSET_DATES)],
                   ("int", 120, "120", RB("soon", 120)), ("str", "30", "30", RB("soon", 30)), ("none", None, None, RB("eq", None))],
          direct=[("7", RB("soon", 7)), ("Sun, 06 Nov 1994 08:49:37 GMT", RB("dt", datetime(1994, 11, 6, 8, 49, 37, tzinfo=UTC)))]),
     dict(prop="access_control_allow_credentials", header="Access-Control-Allow-Credentials", default=RB("eq", False), deletable=False,
